@@ -137,6 +137,44 @@ theorem edge_oriented_tree_entry_joins (c : Config α) (hadj : c.AdjConsistent) 
       c.inst.keyV b.edge = v ∧ c.inst.termV b.edge = b.terminal :=
   SearchRoute.runEdge_none_tree_joins c hadj hfwd source sched r h
 
+/-! ### Why `SearchAlgorithm` no longer calls `a_star_algorithm::run_a_star_edge_oriented`
+
+The wrapper inside `a_star_algorithm.rs` (still public; modelled by `Config.runAStarEdge` +
+`Config.edgeOrientedRoute`, checked against the code by direct calls) stores the destination edge's
+entry under the destination edge's head in the vertex-keyed tree — unless the inner search has
+already labelled that vertex.  Then the route read back by `backtrack::edge_oriented_route` stops
+short.  Witness (the corpus case of the repaired C01 defect): origin edge 0 (0→1), destination edge
+1 (2→3), the inner search 1 ⇝ 2 labels vertex 3 on its way (1→3→2). -/
+
+def retiredWitness : Config ℚ where
+  nV := 4
+  edges := [⟨0, 1, 1⟩, ⟨2, 3, 1⟩, ⟨1, 3, 1⟩, ⟨3, 2, 5⟩, ⟨1, 2, 20⟩]
+  outAdj := [[0], [2, 4], [1], [3]]
+  inAdj := [[], [0], [3, 4], [1, 2]]
+  feats := [{ name := "distance", kind := .dist .meters, init := 0 }]
+  trav := .distance .meters
+  access := .noAccess
+  cost := { indices := [0], weights := [1], vehicleRates := [.raw], networkRates := [.zero], agg := .sum }
+  frontier := []
+  term := .combined []
+  reverse := false
+  gc := [0, 0, 0, 0]
+  wf := some 0
+
+/-- the route `edge_oriented_route` reads from the tree of `run_a_star_edge_oriented` is `[0, 2]`: it
+ends at the destination edge's head without ever taking the destination edge, whereas
+`search_algorithm::run_edge_oriented` (what every `SearchAlgorithm` runs) answers `[0, 2, 3, 1]` -/
+theorem retired_edge_oriented_wrapper_counterexample :
+    (match retiredWitness.runAStarEdge 0 (some 1) [1, 3, 2] with
+     | .ok (tree, _) => (match retiredWitness.edgeOrientedRoute 0 1 tree 7 with
+                         | .ok r => some (r.map (·.edge))
+                         | .error _ => none)
+     | .error _ => none) = some [0, 2] ∧
+    (match retiredWitness.runEdge 0 (some 1) [1, 3, 2] with
+     | .ok r => some (r.routes.map (·.map (·.edge)))
+     | .error _ => none) = some [[0, 2, 3, 1]] := by
+  decide +kernel
+
 /-! ### Non-vacuity: a concrete instance with a parallel edge and a self loop meets the hypotheses,
 and the theorem applies to an actual run (see `SearchTree.Example`). -/
 
